@@ -1223,7 +1223,6 @@ def build_entry_points():
         grp = slide.shapes.add_group_shape()
         return grp.shapes.add_picture(env.png(s + ".png"), E(), E())
     add("group.shapes.add_picture:filename", "file", mk_pic_grp, lambda sh: descr(sh)[:-4] if descr(sh) is not None else None)
-    add("picture.image.filename", "file", mk_pic, lambda sh: sh.image.filename[:-4] if sh.image.filename is not None else None)
 
     def ph_of(slide, klass):
         for ph in slide.placeholders:
@@ -1641,6 +1640,7 @@ def template_marker_check(units, unmodelled):
                 landed.setdefault(mk, []).append(("Text", pfx_el(el), ""))
             for mk in MARKS(el.tail or ""):
                 landed.setdefault(mk, []).append(("Text", pfx_el(par) if par is not None else "", ""))
+        tree = root.getroottree()
         for mk, hidx in marks.items():
             h, info = u["holes"][hidx]
             want = (info["ctx"], info["tag"], info["attr"])
@@ -1649,6 +1649,22 @@ def template_marker_check(units, unmodelled):
             if got != [want]:
                 unmodelled.append("%s:%s line %d: hole %r: static context %r but the marker lands at %r" % (
                     u["mod"], u["func"], u["line"], h.src, want, got))
+                continue
+            # probe for the per-sink correspondence: the template with this slot left open
+            for el in root.iter():
+                if not isinstance(el.tag, str):
+                    continue
+                hit = None
+                for an, av in el.attrib.items():
+                    if av == mk:
+                        hit = an
+                if hit is None and (el.text or "") == mk:
+                    hit = ""
+                if hit is None and any(uri == mk for uri in el.nsmap.values()):
+                    hit = "xmlns"
+                if hit is not None:
+                    info["probe"] = {"xml": body.replace(mk, "\x00"), "path": tree.getelementpath(el), "attr": hit}
+                    break
     return n_checked
 
 
@@ -1791,7 +1807,7 @@ def main():
             sinks.append({"id": len(sinks), "sig": sig, "where": where, "mod": u["mod"], "func": u["func"], "line": h.line or u["line"],
                           "slot": slot, "path": info["path"], "ctx": ctx, "esc": esc, "applied": h.esc or "none", "src": h.src,
                           "class": h.cls, "origin": origin, "entry_points": tainted, "observed": sorted(u["obs"][hi])[:6],
-                          "known": sig in known_sigs, "partial": partial})
+                          "known": sig in known_sigs, "partial": partial, "probe": info.get("probe")})
     # entry points: which sinks each one reaches
     ep_meta = {}
     for ep in eps:
